@@ -307,6 +307,9 @@ func c19Work(c *mc.Ctx) {
 		return
 	}
 	scs := c19Scenarios(c.Tier)
+	if c.Owns(0) {
+		e3SelfTest(c) // the explorer validates its reduction and bounding before it is believed
+	}
 	for si, sc := range scs {
 		if c.Owns(si + 1) {
 			runScenario(c, "C19", sc)
